@@ -108,6 +108,9 @@ pub enum RequestCreationError {
 
     /// Error while reading data from the socket during the creation of the `Request`.
     CreationIoError(IoError),
+
+    /// The client sent a `Content-Length` header that is not a decimal number we can represent.
+    InvalidContentLength,
 }
 
 impl From<IoError> for RequestCreationError {
@@ -145,6 +148,18 @@ where
         .iter()
         .find(|h: &&Header| h.field.equiv("Transfer-Encoding"))
         .map(|h| h.value.clone());
+
+    // a `Content-Length` that is not a plain decimal number must not be ignored (nor may a
+    // sign be accepted): parsers in front of us would disagree about where the body ends
+    for header in headers.iter().filter(|h| h.field.equiv("Content-Length")) {
+        let value = header.value.as_str();
+        if value.is_empty()
+            || !value.bytes().all(|b| b.is_ascii_digit())
+            || usize::from_str(value).is_err()
+        {
+            return Err(RequestCreationError::InvalidContentLength);
+        }
+    }
 
     // finding the content-length header
     let content_length = if transfer_encoding.is_some() {
